@@ -395,7 +395,7 @@ theorem cog3_well_defined (p : Cog3.P) (r t : ℝ) (hr : 0 < r) (hρ : 0 < p.rho
     rw [this]; exact div_ne_zero (by norm_num) hk.ne'
   have he : 0 < Real.exp 1 := Real.exp_pos 1
   unfold Cog3.L0.WellDefined
-  refine ⟨hr, hv, mul_ne_zero hΓ.ne' hkv, by positivity, hk.ne', hlast⟩
+  well_defined
 
 /-- Cog4 in its documented regime 0 < γ < 1 -/
 theorem cog4_well_defined (p : Cog4.P) (r t : ℝ) (hr : 0 < r) (hρ : 0 < p.rho0) (hΓ : 0 < p.Gamma)
